@@ -402,7 +402,7 @@ def _seeds(ctx: Ctx, rng: _Rng) -> None:
 
     net, _, _, _ = _net(ctx, sim, lambda src, dst, body: inbox.append(body), garble, lossy=False)
     for _ in range(1 + ch.draw(3, "n.sentences")):
-        scheme = ch.weighted([("bip39", 5), ("electrum", 3), ("bip85", 3)], "scheme")
+        scheme = ch.weighted([("bip39", 6), ("electrum", 2), ("bip85", 3)], "scheme")
         payload = {"bip39": _gen_bip39, "electrum": _gen_electrum, "bip85": _gen_bip85}[scheme](ctx, rng)
         if payload is not None:
             net.send("gen", "restorer", payload, scheme)
@@ -509,7 +509,7 @@ def _gen_electrum(ctx: Ctx, rng: _Rng) -> Any:
     registry = electrum.ELECTRUM_WORDLISTS
     lang = ch.pick(sorted(registry.language_files), "lang")
     wordlist = registry.wordlist(lang)
-    kind = ch.weighted([("standard", 15), ("segwit", 1)], "electrum.type")
+    kind = ch.weighted([("standard", 23), ("segwit", 1)], "electrum.type")
     form = ch.pick(["int", "bytes", "library-rng"], "ent.form")
     if form == "library-rng":
         given, start = None, None
